@@ -439,6 +439,8 @@ func (cs *Contracts) parseFile(path, src string) error {
 			cur.CountStores = append(cur.CountStores, strings.Fields(rest)...)
 		case "count-calls":
 			cur.CountCalls = append(cur.CountCalls, strings.Fields(rest)...)
+		case "must-defer":
+			cur.MustDefer = append(cur.MustDefer, strings.Fields(rest)...)
 		case "no-store":
 			cur.NoStores = append(cur.NoStores, strings.Fields(rest)...)
 		case "full-loop":
